@@ -321,11 +321,12 @@ pub fn run(ctx: Ctx) -> ! {
     if ctx.evaluations() != planned {
         sut::machinery(&format!("enumerated {} pairs but planned {planned}", ctx.evaluations()));
     }
-    ctx.finish(
-        "exploration",
-        "every ordered pair (first, second) of requests from the menu {24 source addresses straddling every configured prefix length, IPv4-mapped and look-alike IPv6 forms} x {request kinds: NOERROR same/other QNAME, case variants, wildcard-synthesised, NXDOMAIN, REFUSED/NOTIMP/SERVFAIL/FORMERR/BADVERS/NOTAUTH, TCP, other opcodes, ignored messages}, under every listed (IPv4 prefix, IPv6 prefix, slip, table size) configuration, rate 1 x window 1, clock frozen, each pair on a fresh limiter; oracle: the second response is limited (dropped with slip 0, TC-only with slip 1) iff both are UDP QUERY responses from the same prefix of the same family (IPv4-mapped = IPv4) in the same category and, for NOERROR, with the same QNAME/source of synthesis ignoring case; otherwise it is octet-identical to the unlimited response; the first response is never limited",
-        true,
-    )
+    let rule = format!(
+        "every ordered pair (first, second) of requests from the menu {{{} source addresses straddling every configured prefix length, IPv4-mapped and look-alike IPv6 forms}} x {{{} request kinds: NOERROR same/other QNAME, case variants, wildcard-synthesised, NXDOMAIN, REFUSED/NOTIMP/SERVFAIL/FORMERR/BADVERS/NOTAUTH, TCP, other opcodes, ignored messages}}, under every listed (IPv4 prefix, IPv6 prefix, slip, table size) configuration, rate 1 x window 1, clock frozen, each pair on a fresh limiter; oracle: the second response is limited (dropped with slip 0, TC-only with slip 1) iff both are UDP QUERY responses from the same prefix of the same family (IPv4-mapped = IPv4) in the same category and, for NOERROR, with the same QNAME/source of synthesis ignoring case; otherwise it is octet-identical to the unlimited response; the first response is never limited",
+        srcs.len(),
+        env.menu.len()
+    );
+    ctx.finish("exploration", &rule, true)
 }
 
 fn replay(ctx: Ctx, env: &Env, case: Value) -> ! {
